@@ -262,7 +262,7 @@ def gen_cases(fm, rng, tier, prop, stride=1):
     return cases
 
 
-def make_world(binary, base, rng, idx, comp, concat, n_extras, tier, big=False):
+def make_world(binary, base, rng, idx, comp, concat, n_extras, tier, big=False, same_ids=False):
     if big == "huge":
         # an entry store of more than 1 MiB (90 000 entries of 13 bytes and more)
         scn = L.make_container(rng, 500 + idx, n_entries=90000, n_extras=n_extras, comp=comp, concat=concat, sizes=[0, 1, 2])
@@ -279,7 +279,7 @@ def make_world(binary, base, rng, idx, comp, concat, n_extras, tier, big=False):
         # blocks of >= 4 KiB (content infos of 2500 contents, cluster tails of thousands of blobs, entry store data)
         scn = L.make_container(rng, 500 + idx, n_entries=2500, n_extras=n_extras, comp=comp, concat=concat, sizes=[0, 1, 3, 7, 20])
     else:
-        scn = L.make_container(rng, 500 + idx, n_entries=4, n_extras=n_extras, comp=comp, concat=concat)
+        scn = L.make_container(rng, 500 + idx, n_entries=4, n_extras=n_extras, comp=comp, concat=concat, extra_ids=[2] * n_extras if same_ids else None)
     d = os.path.join(base, "w%d" % idx)
     shutil.rmtree(d, ignore_errors=True)
     os.makedirs(d)
@@ -311,6 +311,8 @@ def run(prop, tier):
             worlds.append(("none", "two", 2, 1, "extra0.jbkc"))     # a pack is unavailable; the packs listed after it are still checked
         if prop == "C05":
             worlds.append(("none", "one", 0, "huge"))
+        if prop == "C04":
+            worlds.append(("none", "two", 2, 1, "alternatives"))
     else:
         worlds = [(c, m, x, 1) for c in ("none", "lz4", "lzma", "zstd") for m, x in (("one", 0), ("two", 1), ("none", 2))]
         worlds += [("none", "one", 0, "big"), ("zstd", "two", 1, "big")]
@@ -320,13 +322,18 @@ def run(prop, tier):
             worlds.append(("none", "one", 0, "huge"))
         if prop == "C06":
             worlds += [("lzma", "one", 0, "bigc"), ("zstd", "one", 0, "bigc"), ("lz4", "two", 1, "bigc")]
+        if prop == "C04":
+            worlds.append(("none", "two", 2, 1, "alternatives"))
     events, nontrivial, total = [], set(), 0
     case_index = {}
     confirmed_bad = 0       # crashes / hangs confirmed alone: after a few of them the verdict is reached and the sweep stops
     for wi, wd in enumerate(worlds):
         comp, concat, nex, stride = wd[:4]
         removed = wd[4] if len(wd) > 4 else None
-        scn, d = make_world(binaries["debug"], base, rng, wi, comp, concat, nex, tier, big=(stride if stride in ("huge", "bigc") else stride == "big"))
+        alts = removed == "alternatives"      # two content packs declared with the same pack id (allowed by the format: alternatives)
+        if alts:
+            removed = None
+        scn, d = make_world(binaries["debug"], base, rng, wi, comp, concat, nex, tier, big=(stride if stride in ("huge", "bigc") else stride == "big"), same_ids=alts)
         entry = os.path.join(d, scn["out"])
         removed_id = None
         if removed:
@@ -344,6 +351,8 @@ def run(prop, tier):
             exp_diff = [x for x in exp_diff if not x[0].startswith("pack/%d/" % removed_id)]
             if L.flatten(pristine).get("pack/%d/res" % removed_id) != "missing":
                 rep.violation("%s removed pack %d is not reported missing" % (prop, removed_id), {"dump": pristine.get("contents")})
+        if alts:
+            exp_diff = []          # (which alternative answers for the shared id is the reader's choice: only the checks are judged in this world)
         if exp_diff:
             rep.violation("%s pristine dump differs from the logical container comp=%s mode=%s" % (prop, comp, concat), {"diff": exp_diff[:5]})
             continue
@@ -356,10 +365,15 @@ def run(prop, tier):
         man = next(p for p in jbkdec.all_packs(decm) if p["kind"] == "m")
         keys = {man["uuid"]: "m"}
         for pi in man["packInfos"]:
-            keys[pi["uuid"]] = "d" if pi["kind"] == "d" else str(pi["packId"])
+            kk = "d" if pi["kind"] == "d" else str(pi["packId"])
+            if kk in keys.values():
+                kk += "#alt"         # a further pack with the same id: its own check is not reported separately, the container's is
+            keys[pi["uuid"]] = kk
         files = [fn for fn in sorted(os.listdir(d)) if os.path.isfile(os.path.join(d, fn)) and not fn.startswith("in_")]
         if removed:
             files = [fn for fn in files if fn.startswith("extra")]       # the packs listed after the unavailable one
+        if alts:
+            files = [fn for fn in files if fn.startswith("extra1")]      # the alternative that is not the first one declared
         for fn in files:
             fm = FileMap(os.path.join(d, fn), keys)
             cases = gen_cases(fm, rng, tier, prop, stride=stride)
